@@ -105,7 +105,6 @@ def main(chk):
         graphs = list(ex.map(_dump, jobs))
     states = trans = nwalks = steps_total = nontriv = 0
     runs, samples, cov = [], [], {}
-    compiles = 0
     for (kind, ms, hows, fd, maxn, depth, rep), g in zip(plans, graphs):
         r = g.tlc
         if r.violated:
